@@ -421,6 +421,8 @@ def forward_signatures(func, calls, args, kwargs, sig):
         fwdkwargsvals.update(rn(fwdvarkwargs))
         using_partial = wrapped_func == functools.partial
         if using_partial:
+            if not fwdargs:
+                raise UnknownForwards
             wrapped_func = fwdargsvals.pop(0)
         try:
             wrapped_sig = forged_signature(
